@@ -6899,6 +6899,8 @@ class Rect(Shape):
             self.rx = self.rx.value(relative_length=width, **kwargs)
         if isinstance(self.ry, Length):
             self.ry = self.ry.value(relative_length=height, **kwargs)
+        # Corner radii could not be limited to half the size while the size was not in user units.
+        self._validate_rect()
         return self
 
     def is_degenerate(self):
